@@ -87,6 +87,7 @@ PROPS["C10"] = simple(
     "remote/cyclic chains through the TLS simulator. Non-trivial: every case (each has at least one page); distinct = (layout, request sizes, start).",
     shards=dict(quick=8, thorough=16),
     floor=dict(evaluations=20000, distinct=5000, harvest_calls=20000),
+    ulimit_v_kb=6 * 1024 * 1024,
     technique="runtime monitor: history of delivered unique-tagged elements checked against the reference concatenation and the legitimate-cut rule",
     level_text="Every delivered item identifies the page slot it came from, so the concatenation of successive Harvest results is checked linearly: it must be a prefix "
                "of the reference sequence, end with the full sequence and a nil continuation, or be cut by one error item only where a page fails to load or at "
@@ -151,10 +152,10 @@ PROPS["C06"] = simple(
     floor=dict(evaluations=1500, distinct=1000, calls=50000),
     timeout=dict(quick=900, thorough=3000),
     technique="runtime monitor: crash / per-call stopwatch / hard watchdog / address-space limit around every public method, one logged case per document in child processes",
-    level_text="Survival and time monitors around the real constructors and every method of the resulting items: a panic (also in a background goroutine: the child dies and the "
-               "runner attributes it to the logged case), a call slower than 10 s on a document <= 4 KB, a call not returning within 30 s, or the child exceeding 8 GB of address space "
+    level_text="Survival and CPU-time monitors around the real constructors and every method of the resulting items: a panic (also in a background goroutine: the child dies and the "
+               "runner attributes it to the logged case), a call that consumes more than 10 s of CPU time on a document <= 4 KB, a call still running after 30 s of CPU time (10 min idle), or the child exceeding 8 GB of address space "
                "is a violation. Sampled over generated hostile inputs.",
-    level_note="Trusted: the runner's attribution of a process death to the last logged case. Time bounds are wall-clock because promptness is the property (10 s is far above 'seconds'; "
+    level_note="Trusted: the runner's attribution of a process death to the last logged case. Promptness is judged on the CPU time of the (locked) thread executing the call, read from /proc, so that a loaded machine cannot produce an alarm (10 s is far above 'seconds'; "
                "documents > 4 KB are checked for crashes only). Network references are non-https or absent here (no fetches); fetched worlds are exercised by C02/C07/C09.",
 )
 
